@@ -29,7 +29,7 @@ ASSUME TreeLaws == /\ \A t \in T2 : WellFormed(t)
                    /\ \A a \in T2 : \A b \in T2 : (Diff(a, b) = <<>>) <=> (a = b)
                    /\ ~WellFormed(<<"D", << <<<<98>>, <<"N">>>>, <<<<97>>, <<"N">>>> >>>>)
                    /\ ~WellFormed(<<"R", 1, <<2>>, 0>>) /\ ~WellFormed(<<"R", 0, <<1>>, 0>>)
-                   /\ Diff(<<"L", <<<<"N">>, <<"D", << <<<<120>>, <<"B", 0>>>> >>>> >>>>, <<"L", <<<<"N">>, <<"D", << <<<<120>>, <<"B", 1>>>> >>>> >>>>) = <<2, <<120>>, "value">>
+                   /\ Diff(<<"L", <<<<"N">>, <<"D", << <<<<120>>, <<"B", 0>>>> >>>> >>>>, <<"L", <<<<"N">>, <<"D", << <<<<120>>, <<"B", 1>>>> >>>> >>>>) = <<2, 1, "value">>
 ASSUME UpLaws ==
   LET g == << <<MMK_L \o <<65>>, <<<<97>>>>>>, <<<<66>>, <<<<98>>>>>>, <<<<67>>, <<<<99>>>>>> >>
       k == << <<MMK_L \o <<65>>, <<66>>, 1>>, <<<<120>>, <<67>>, 2>>, <<<<66>>, <<120>>, 3>> >>
